@@ -23,6 +23,7 @@ RULE = ("seeded sources (north-up and rotated, metre- and degree-based, 8..64 px
 ASSUMPTIONS = ["the oracle's own pyproj transformer gives the projected position of a source pixel corner", "sources stay inside the valid area of both CRSs",
                "integer shape request: longest side n, or n+1 only when snapping is on; displacement bound includes the documented 0.9 source-pixel buffer"]
 SHARDS = {"quick": 1, "thorough": 8}
+SUITE_UNDER_MONITOR = True
 
 _mon: Monitor = None  # type: ignore
 
